@@ -324,7 +324,14 @@ func vlenEv(v *trie.VLenArray) Ev {
 }
 
 // ProtoEv logs the stored form itself.
-func ProtoEv(sl *trie.Slim) Ev {
+//
+// wire is the Marshal() output the message was parsed from (Level C, SlimWire); it
+// is logged for streams up to 2 KiB and left empty otherwise.
+func ProtoEv(sl *trie.Slim, wire []byte) Ev {
+	w := []int{}
+	if len(wire) <= 2048 {
+		w = bints(wire)
+	}
 	tb := []int{}
 	for _, x := range sl.ShortTable {
 		tb = append(tb, int(x))
@@ -332,5 +339,5 @@ func ProtoEv(sl *trie.Slim) Ev {
 	return Ev{"ev": "proto", "empty": b2i(sl.NodeTypeBM == nil), "bigcnt": int(sl.BigInnerCnt), "shortsize": int(sl.ShortSize), "shorttable": tb,
 		"nodetype": bmEv(sl.NodeTypeBM), "inners": bmEv(sl.Inners), "shortbm": bmEv(sl.ShortBM),
 		"ip": vlenEv(sl.InnerPrefixes), "lp": vlenEv(sl.LeafPrefixes), "leaves": vlenEv(sl.Leaves),
-		"unknown": len(sl.XXX_unrecognized)}
+		"unknown": len(sl.XXX_unrecognized), "wire": w}
 }
